@@ -264,7 +264,7 @@ fn run_handles(sc: &J, t: &mut Tracer) {
 			init.insert("s1.seek".into(), json!(0));
 			jump.insert("s1.seek".into(), json!("yes"));
 		}
-		"M" => {
+		"M" | "D" => {
 			let tweener = s.sim.manager.add_modulator(TweenerBuilder { initial_value: 1.0 }).unwrap();
 			let vol: Value<Decibels> = Value::from_modulator(
 				&tweener,
@@ -282,7 +282,7 @@ fn run_handles(sc: &J, t: &mut Tracer) {
 			};
 			s.s1 = Some(s.sim.manager.play(data).unwrap());
 			s.tweener = Some(tweener);
-			level(&mut init, &mut jump, "m.set", json!(0));
+			level(&mut init, &mut jump, if scene == "D" { "m.dset" } else { "m.set" }, json!(0));
 		}
 		x => panic!("unknown scene {x}"),
 	}
@@ -337,6 +337,12 @@ fn run_handles(sc: &J, t: &mut Tracer) {
 						let x = if v.as_i64() == Some(0) { 1.0 } else { 0.0 };
 						s.tweener.as_mut().unwrap().set(x, tw(0))
 					}
+					"m.dset" => {
+						// {x: the volume it maps to, dl: start delay in callbacks}
+						let x = if v["x"].as_i64() == Some(0) { 1.0 } else { 0.0 };
+						let dl = v["dl"].as_u64().unwrap_or(0);
+						s.tweener.as_mut().unwrap().set(x, Tween { start_time: StartTime::Delayed(chunks(dl)), duration: Duration::ZERO, easing: Easing::Linear })
+					}
 					k => panic!("unknown key {k}"),
 				});
 				if let Err(m) = r {
@@ -381,7 +387,7 @@ fn run_handles(sc: &J, t: &mut Tracer) {
 					}
 					_ => {
 						let el = half_bels(l, PAN_GAIN);
-						obs.insert("m.set".into(), json!(match el { 0 => 0, 2 => -20, _ => -999 }));
+						obs.insert((if scene == "D" { "m.dset" } else { "m.set" }).into(), json!(match el { 0 => 0, 2 => -20, _ => -999 }));
 					}
 				}
 				t.ev(json!({"a": "cb", "obs": obs, "jump": jump, "cont": cont, "n": NF,
